@@ -280,8 +280,10 @@ def parsePKind : Sexp → Option PKind
   | .list [.atom "custom", pt, min] => do pure (.custom (u8 (← pt.toNat?)) (← min.toNat?))
   | _ => none
 
+def customPts : List Nat := [0, 192, 199, 200, 204, 207, 208, 242, 255]
+
 def customGrid (pt : UInt8) (min : Nat) : Bool :=
-  [0, 192, 199, 200, 204, 207, 208, 242, 255].contains pt.toNat && [4, 8, 12, 20].contains min
+  customPts.contains pt.toNat && [4, 6, 8, 12, 13, 20].contains min
 
 partial def Cfg.customsOk : Cfg → Bool
   | .custom b _ => customGrid b.pt b.min
@@ -417,6 +419,65 @@ def specParseLines (k : PKind) (d : Bytes) : Out :=
     | none => #[("spec.tiles", "none")]
   | _ => #[]
 
+/-- `(helper NAME ARGS...)` (PROTOCOL.md §4.4): the model's counterparts of the crate's public
+    `utils::writer` / `utils::parser` helpers. -/
+def execHelper (args : List Sexp) : Out :=
+  let bad : Out := #[("bad-request", "helper-args")]
+  let maxLen := 1 <<< 20
+  match args with
+  | [.atom "write_header", pt, padding, count, len, fill] =>
+    match pt.toNat?, padding.toNat?, count.toNat?, len.toNat? with
+    | some pt, some p, some c, some l =>
+      if l > maxLen then bad
+      else
+        match fillBuf l fill with
+        | none => bad
+        | some buf =>
+          if !customPts.contains pt then #[("bad-request", "custom-grid")]
+          else
+            match (writeHeader (u8 pt) (u8 p) (u8 c) buf : R Unit Bytes) with
+            -- the Rust returns the number of header bytes
+            | .ok b => #[("res", "ok:4"), ("buf", hexOf b)]
+            | _ => #[("res", "panic")]
+    | _, _, _, _ => bad
+  | [.atom "write_padding", padding, len, fill] =>
+    match padding.toNat?, len.toNat? with
+    | some p, some l =>
+      if l > maxLen then bad
+      else
+        match fillBuf l fill with
+        | none => bad
+        | some buf =>
+          match (writePadding (u8 p) buf : R Unit (Bytes × Nat)) with
+          | .ok (b, n) => #[("res", "ok:" ++ toString n), ("buf", hexOf b)]
+          | _ => #[("res", "panic")]
+    | _, _ => bad
+  | [.atom "check_padding", p] =>
+    match p.toNat? with
+    | some p =>
+      match checkPadding (u8 p) with
+      | .ok _ => #[("res", "ok")]
+      | .err e => #[("res", "err:" ++ renderWriteError e)]
+      | .panic => #[("res", "panic")]
+    | none => bad
+  | [.atom "pad_to_4bytes", n] =>
+    -- `utils::pad_to_4bytes` is `pub(crate)` in the crate: the harness cannot call it
+    match n.toNat? with
+    | some _ => #[("bad-request", "not-exported")]
+    | none => bad
+  | [.atom "parse_fields", bytes] =>
+    match bytes.toBytes? with
+    | some d =>
+      #[("version", acc (parseVersion d) toString),
+        ("pbit", acc (parsePaddingBit d) toString),
+        ("count", acc (parseCount d) toString),
+        ("ptype", acc (parsePacketType d) toString),
+        ("length", acc (parseLength d) toString),
+        ("padding", acc (parsePadding d) optPad),
+        ("ssrc", acc (parseSsrc d) toString)]
+    | none => bad
+  | _ => bad
+
 def execRequest (line : String) : Out :=
   match parseSexp line with
   | some (.list [.atom "parse", kind, bytes]) =>
@@ -446,6 +507,7 @@ def execRequest (line : String) : Out :=
           let v := cfg.violations
           #[("size", resW w.calcSize), ("getpad", optPad w.getPadding),
             ("spec.viol", if v.isEmpty then "-" else String.intercalate ";" (v.map renderWriteError))]
+  | some (.list (.atom "helper" :: args)) => execHelper args
   | _ => #[("bad-request", "syntax")]
 
 end Driver
